@@ -27,7 +27,10 @@ RULE = ('schema graphs generated from a description: 1-4 classes in a chosen reg
         'of 0-4 rows per class with NULL, valid and dangling FK values and random link rows; EVERY existing row as the '
         'victim; both cache=True and cache=False connections; the harness holding all / only the victim / no instances; '
         'a third of the cases with the classes bound to a DIFFERENT default database (same ids, cascade=False columns flipped) '
-        'and every operation through an explicit connection= (the default database must stay untouched). '
+        'and every operation through an explicit connection= (the default database must stay untouched); a quarter of the '
+        'populations as HISTORIES in a fresh registry: an object of every early class is destroyed first, then the last classes are '
+        'declared and trailing ForeignKey columns / RelatedJoins are added with sqlmeta.addColumn/addJoin, then the victim is '
+        'destroyed; held instances are fetched before the destroy and their cached column values compared with the stored rows. '
         'Exhaustive sub-families: two FK columns to one target x all 16 policy pairs x all value pairs x both registry '
         'orders; one class with two self references; chains of depth 3 with all 64 policy triples in several registry '
         'orders. A malformed stream destroys ids that do not exist. Non-trivial = something other than the victim row '
@@ -160,14 +163,32 @@ def decoy_of(classes, rows, victim):
     return out
 
 
-def mk(classes, rows, links, victim, cache, hold, conn='default', decoy=None):
+def mk(classes, rows, links, victim, cache, hold, conn='default', decoy=None, late=None):
     """conn='other': the classes are bound to a default connection holding the `decoy` population; the
     population proper lives in a second database and every operation passes connection= explicitly."""
     c = {'classes': classes, 'rows': rows, 'links': links, 'victim': list(victim), 'cache': cache, 'hold': hold,
          'conn': conn}
     if conn == 'other':
         c['decoy'] = decoy if decoy is not None else decoy_of(classes, rows, victim)
+    if late:
+        # history: the last late['ncls'] classes are declared, and the last late['fks'][i] ForeignKey columns /
+        # late['joins'][i] RelatedJoins of the earlier class i are added (sqlmeta.addColumn / addJoin), only AFTER
+        # an object of every earlier class has been destroyed once
+        c['late'] = late
     return c
+
+
+def random_late(rng, classes):
+    ncls = len(classes)
+    a = min(rng.choice([0, 0, 1, 1, 2]), ncls - 1)
+    fks, joins = [], []
+    for i, cd in enumerate(classes):
+        early = i < ncls - a
+        fks.append(rng.randint(0, len(cd['fks'])) if early and rng.random() < 0.6 else 0)
+        joins.append(rng.randint(0, len(cd['joins'])) if early and rng.random() < 0.6 else 0)
+    if a == 0 and not any(fks) and not any(joins):
+        return None
+    return {'ncls': a, 'fks': fks, 'joins': joins}
 
 
 def conn_mode(n):
@@ -178,13 +199,13 @@ def conn_mode(n):
 HOLDS = ['all', 'victim', 'none']
 
 
-def all_victims(classes, rows, links, k0=0):
+def all_victims(classes, rows, links, k0=0, late=None):
     out = []
     n = k0
     for i, rs in enumerate(rows):
         for r in rs:
             for cache in (True, False):
-                out.append(mk(classes, rows, links, (i, r[0]), cache, HOLDS[n % 3], conn_mode(n)))
+                out.append(mk(classes, rows, links, (i, r[0]), cache, HOLDS[n % 3], conn_mode(n), late=late))
                 n += 1
     return out
 
@@ -367,6 +388,19 @@ def witnesses():
         # 3. an unreferenced owner must be destroyable although the default db has a guard on the same id
         mk([E, {'fks': [[0, 'R']], 'joins': []}], [[[1, []], [2, []]], [[1, [2]]]], [], (0, 1), True, 'all',
            'other', [[[1, []], [2, []]], [[1, [1]]]]),
+        # seeded c12_dependencies_memoised: referencing classes / columns / joins that appear after a first destroy.
+        # late class with cascade=True (depth 2 below it), late cascade='null' column, late one-sided join
+        mk([{'fks': [], 'joins': []}, {'fks': [[0, 'O'], [0, 'N']], 'joins': [[0, 0, True]]},
+            {'fks': [[0, 'C']], 'joins': []}, {'fks': [[2, 'C']], 'joins': []}],
+           [[[1, []], [2, []]], [[1, [1, 1]], [2, [2, 2]]], [[1, [1]], [2, [2]]], [[1, [1]], [2, [2]]]],
+           [[[1, 1], [2, 2]]], (0, 1), True, 'all', 'default', None, {'ncls': 2, 'fks': [0, 1, 0, 0], 'joins': [0, 1, 0, 0]}),
+        # late cascade=False column added with addColumn must still refuse
+        mk([E, {'fks': [[0, 'R']], 'joins': []}], [[[1, []], [2, []]], [[1, [1]]]], [], (0, 1), False, 'victim',
+           'default', None, {'ncls': 0, 'fks': [0, 1], 'joins': [0, 0]}),
+        # seeded c05_setnull_bypasses_cache: a held child must read NULL after its parent is destroyed
+        mk([E, {'fks': [[0, 'N'], [0, 'O']], 'joins': []}], [[[1, []], [2, []]], [[1, [1, 1]], [2, [2, 1]]]], [],
+           (0, 1), True, 'all'),
+        mk([E, {'fks': [[0, 'N']], 'joins': []}], [[[1, []]], [[1, [1]]]], [], (0, 1), False, 'all'),
         # a row handed to destroySelf twice (materialised result list)
         mk([E, {'fks': [[0, 'C'], [1, 'C']], 'joins': []}],
            [[[1, []]], [[1, [1, None]], [2, [1, 1]]]], [], (0, 1), True, 'all'),
@@ -389,7 +423,9 @@ def generate(rng, tier):
         classes, ends = random_graph(rng)
         for _ in range(2):
             rows, links = random_population(rng, classes, ends, style=rng.choice([None, 'dag', 'dag']))
-            out += all_victims(classes, rows, links, k)
+            # a quarter of the populations: part of the reference graph appears only after earlier destroys
+            late = random_late(rng, classes) if (2 * g + _) % 4 == 1 else None
+            out += all_victims(classes, rows, links, k, late)
             k += 1
     # malformed stream: ids that do not exist, classes without rows
     for g in range(40 if not thorough else 400):
@@ -408,7 +444,7 @@ def search_cases(rng, tier):
     for g in range(1500):
         classes, ends = random_graph(rng)
         rows, links = random_population(rng, classes, ends, style=rng.choice([None, 'dag']))
-        out += all_victims(classes, rows, links, k)
+        out += all_victims(classes, rows, links, k, random_late(rng, classes) if g % 3 == 0 else None)
         k += 1
     return out
 
@@ -429,42 +465,62 @@ def run_one(c, mods):
     # population); everything below goes through `conn` with connection= passed explicitly
     dflt = SQLiteConnection(':memory:') if other else conn
     kw = {'connection': conn} if other else {}
+    late = c.get('late')
+    ncls = len(c['classes'])
+    nearly = ncls - (late['ncls'] if late else 0)
     try:
-        classes = []
-        for i, cd in enumerate(c['classes']):
+        def fkdef(j, t, p, named=False):
+            extra = {'name': 'f%d' % j} if named else {}
+            return ForeignKey('K%d' % t, cascade=POL[p], default=None, **extra)
+
+        def joindef(j, o, tb, side, named=False):
+            jc, oc = ('r', 'l') if side else ('l', 'r')
+            extra = {'joinMethodName': 'j%d' % j} if named else {}
+            return RelatedJoin('K%d' % o, joinColumn=jc, otherColumn=oc,
+                               intermediateTable='lt%d' % tb, createRelatedTable=False, **extra)
+
+        def make_class(i, nf, nj):
+            cd = c['classes'][i]
             attrs = {'_connection': dflt, 'sqlmeta': type('sqlmeta', (), {'registry': reg})}
-            for j, (t, p) in enumerate(cd['fks']):
-                attrs['f%d' % j] = ForeignKey('K%d' % t, cascade=POL[p], default=None)
-            for j, (o, tb, side) in enumerate(cd['joins']):
-                jc, oc = ('r', 'l') if side else ('l', 'r')
-                attrs['j%d' % j] = RelatedJoin('K%d' % o, joinColumn=jc, otherColumn=oc,
-                                               intermediateTable='lt%d' % tb, createRelatedTable=False)
-            classes.append(type('K%d' % i, (SQLObject,), attrs))
-        colnames = [[col.dbName for col in k.sqlmeta.columnList] for k in classes]
-        for i, k in enumerate(classes):
-            # the column order the model relies on
-            assert [col.name for col in k.sqlmeta.columnList] == ['f%dID' % j for j in range(len(c['classes'][i]['fks']))]
+            for j, (t, p) in enumerate(cd['fks'][:nf]):
+                attrs['f%d' % j] = fkdef(j, t, p)
+            for j, (o, tb, side) in enumerate(cd['joins'][:nj]):
+                attrs['j%d' % j] = joindef(j, o, tb, side)
+            return type('K%d' % i, (SQLObject,), attrs)
+        classes = []
+        for i in range(nearly):
+            cd = c['classes'][i]
+            classes.append(make_class(i, len(cd['fks']) - (late['fks'][i] if late else 0),
+                                      len(cd['joins']) - (late['joins'][i] if late else 0)))
+        # names as the default style produces them (asserted against sqlmeta once the schema is complete)
+        tabnames = ['k%d' % i for i in range(ncls)]
+        colnames = [['f%d_id' % j for j in range(len(cd['fks']))] for cd in c['classes']]
 
         def populate(dbc, rows_, links_):
-            for k in classes:
-                k.createTable(connection=dbc)
             cu = dbc.getConnection().cursor()
+            if late:
+                # the tables exist with their final columns from the start; the classes learn about part of them later
+                for i in range(ncls):
+                    cu.execute('CREATE TABLE %s (%s)' % (tabnames[i], ', '.join(
+                        ['id INTEGER PRIMARY KEY'] + ['%s INT' % n for n in colnames[i]])))
+            else:
+                for k in classes:
+                    k.createTable(connection=dbc)
             for t in range(len(links_)):
                 cu.execute('CREATE TABLE lt%d (l INT, r INT)' % t)
                 for a, b in links_[t]:
                     cu.execute('INSERT INTO lt%d (l, r) VALUES (?, ?)' % t, (a, b))
             for i, rows in enumerate(rows_):
-                k = classes[i]
                 for rid, vals in rows:
                     cu.execute('INSERT INTO %s (%s) VALUES (%s)' % (
-                        k.sqlmeta.table, ', '.join(['id'] + colnames[i]), ', '.join('?' * (1 + len(colnames[i])))),
+                        tabnames[i], ', '.join(['id'] + colnames[i]), ', '.join('?' * (1 + len(colnames[i])))),
                         [rid] + list(vals))
             return cu
 
         def dump_of(cu):
             tabs = []
-            for i, k in enumerate(classes):
-                cu.execute('SELECT %s FROM %s ORDER BY rowid' % (', '.join(['id'] + colnames[i]), k.sqlmeta.table))
+            for i in range(ncls):
+                cu.execute('SELECT %s FROM %s ORDER BY rowid' % (', '.join(['id'] + colnames[i]), tabnames[i]))
                 tabs.append([[r[0], list(r[1:])] for r in cu.fetchall()])
             links = []
             for t in range(len(c['links'])):
@@ -477,6 +533,26 @@ def run_one(c, mods):
 
         def dump():
             return dump_of(cur)
+        if late:
+            # an object of every class that exists so far is created and destroyed once ...
+            for i in range(nearly):
+                cur.execute('INSERT INTO %s (id) VALUES (99)' % tabnames[i])
+                classes[i].delete(99, **kw)
+            # ... and only then the rest of the reference graph comes into existence
+            for i in range(nearly):
+                cd = c['classes'][i]
+                for j in range(len(cd['fks']) - late['fks'][i], len(cd['fks'])):
+                    classes[i].sqlmeta.addColumn(fkdef(j, cd['fks'][j][0], cd['fks'][j][1], named=True))
+                for j in range(len(cd['joins']) - late['joins'][i], len(cd['joins'])):
+                    classes[i].sqlmeta.addJoin(joindef(j, *cd['joins'][j], named=True))
+            for i in range(nearly, ncls):
+                classes.append(make_class(i, len(c['classes'][i]['fks']), len(c['classes'][i]['joins'])))
+        for i, k in enumerate(classes):
+            # table / column names and the column order the model relies on
+            assert k.sqlmeta.table == tabnames[i]
+            assert [col.dbName for col in k.sqlmeta.columnList] == colnames[i]
+            assert [col.name for col in k.sqlmeta.columnList] == ['f%dID' % j for j in range(len(c['classes'][i]['fks']))]
+            assert len(k.sqlmeta.joins) == len(c['classes'][i]['joins'])
         btabs, blinks = dump()
         assert btabs == [[[r[0], list(r[1])] for r in rs] for rs in c['rows']], 'population not as described'
         assert blinks == [[list(l) for l in ls] for ls in c['links']]
@@ -505,6 +581,14 @@ def run_one(c, mods):
             sys.setrecursionlimit(old)
         gc.collect()
         atabs, alinks = dump()
+        # what the application's held instances say about rows that still exist
+        cached = []
+        for (i, rid), obj in sorted(held.items()):
+            if any(r[0] == rid for r in atabs[i]):
+                try:
+                    cached.append([i, rid, [getattr(obj, 'f%dID' % j) for j in range(len(c['classes'][i]['fks']))]])
+                except Exception as e:
+                    cached.append([i, rid, type(e).__name__])
         gets = []
         for i, rows in enumerate(c['rows']):
             g = []
@@ -518,7 +602,7 @@ def run_one(c, mods):
                     g.append(type(e).__name__)
             gets.append(g)
         held.clear()
-        res = {'out': out, 'tabs': atabs, 'links': alinks, 'gets': gets}
+        res = {'out': out, 'tabs': atabs, 'links': alinks, 'gets': gets, 'cached': cached}
         if other:
             # the default database must not have been read for decisions nor written
             res['default_changed'] = dump_of(dcur) != dbefore
@@ -702,6 +786,16 @@ def oracle(c, o):
                 ghost.append([k, r[0]])
             if got not in ('NotFound', 'held', 'fresh'):
                 ghost.append([k, r[0], got])
+    # (4) coherence of held instances: for every held instance whose row still exists (destroy successful or
+    #     refused), the cached column values equal the stored row
+    incoherent = []
+    for i, rid, vals in o.get('cached', []):
+        stored = [r[1] for r in o['tabs'][i] if r[0] == rid]
+        if not stored or vals != stored[0]:
+            incoherent.append([i, rid, vals, stored[0] if stored else None])
+    if incoherent:
+        dev.append('stale_cached_values')
+        detail['incoherent'] = incoherent
     if o.get('default_changed'):
         dev.append('default_db_touched')
     if stale:
@@ -798,7 +892,7 @@ def explain_deviations(c, o, f):
     ids = []
     # fixed findings (restrict_test_per_dependent_class 6f7f267, uncached_connection_hands_out_destroyed_instance
     # e3b93b4) are no longer known: their deviations are violations again
-    if ('default_db_touched' in dev or 'stale_get' in dev or 'refused_without_restriction' in dev or 'changed_although_raised' in dev or
+    if ('stale_cached_values' in dev or 'default_db_touched' in dev or 'stale_get' in dev or 'refused_without_restriction' in dev or 'changed_although_raised' in dev or
             'ghost_get' in dev or 'other_exception' in dev or 'missing_id' in dev):
         return None
     if 'recursion' in dev:
@@ -856,7 +950,7 @@ def nontrivial(c, o):
 
 def key(c):
     return [c['classes'], c['rows'], c['links'], c['victim'], c['cache'], c['hold'], c.get('conn', 'default'),
-            c.get('decoy')]
+            c.get('decoy'), c.get('late')]
 
 
 def depth_of(c, sp):
@@ -878,7 +972,8 @@ def depth_of(c, sp):
 
 
 def distribution(cases, obs):
-    d = {'outcome': {}, 'classes': {}, 'closure_size': {}, 'cascade_depth': {}, 'cache': {}, 'hold': {}, 'connection': {},
+    d = {'outcome': {}, 'classes': {}, 'closure_size': {}, 'cascade_depth': {}, 'cache': {}, 'hold': {}, 'connection': {}, 'late_graph': {'static': 0, 'late_class': 0, 'late_fk_column': 0, 'late_join': 0},
+         'held_instances_checked': 0, 'held_instances_with_nulled_reference': 0,
          'explicit_connection_and_default_db_disagrees_on_restriction': 0,
          'spec_refused': 0, 'null_outs': 0, 'link_rows_removed': 0, 'dangling_left': 0, 'self_reference_schema': 0,
          'two_columns_same_target': 0, 'related_joins': 0, 'deviations': {}, 'missing_victim': 0}
@@ -889,6 +984,18 @@ def distribution(cases, obs):
         d['classes'][str(len(c['classes']))] = d['classes'].get(str(len(c['classes'])), 0) + 1
         d['cache'][str(c['cache'])] = d['cache'].get(str(c['cache']), 0) + 1
         d['hold'][c['hold']] = d['hold'].get(c['hold'], 0) + 1
+        lt = c.get('late')
+        if not lt:
+            d['late_graph']['static'] += 1
+        else:
+            d['late_graph']['late_class'] += 1 if lt['ncls'] else 0
+            d['late_graph']['late_fk_column'] += 1 if any(lt['fks']) else 0
+            d['late_graph']['late_join'] += 1 if any(lt['joins']) else 0
+        d['held_instances_checked'] += len(o.get('cached', []))
+        for i, rid, vals in o.get('cached', []):
+            before = [r[1] for r in c['rows'][i] if r[0] == rid]
+            if before and isinstance(vals, list) and any(a is not None and b is None for a, b in zip(before[0], vals)):
+                d['held_instances_with_nulled_reference'] += 1
         cm = c.get('conn', 'default')
         d['connection'][cm] = d['connection'].get(cm, 0) + 1
         if not victim_exists(c):
